@@ -49,9 +49,10 @@ SOURCES = ("attrs", "device", "od", "load_configuration")
 class _LoseOne:
     """Transport wrapper: the k-th frame the device sends to the fresh network is lost."""
 
-    def __init__(self, inner, k):
+    def __init__(self, inner, k, dst_name="fresh"):
         self.inner = inner
         self.k = k
+        self.dst_name = dst_name
         self.n = 0
         self.fired = False
         self.lat_lo, self.lat_hi = inner.lat_lo, inner.lat_hi
@@ -60,7 +61,7 @@ class _LoseOne:
         return self.inner.latency()
 
     def route(self, frame, dst):
-        if frame.src == "server" and dst.name == "fresh":
+        if frame.src == "server" and dst.name == self.dst_name:
             i = self.n
             self.n += 1
             if i == self.k:
@@ -354,6 +355,22 @@ def scenario(ctx):
             for s, val in e["subs"].items():
                 if st.subs[s][1] != val:
                     ctx.violation("C09/optional-entry-not-written", "%s: comm sub %d on the device is %d, configured %d" % (what, s, st.subs[s][1], val))
+    if source != "load_configuration" and ctx.choice(8, "interrupted-save") == 1:
+        # a first attempt to save is cut short: ONE answer of the device is lost, save() fails with an SDO error half-way (or
+        # gets through); the application then simply calls save() again on the same objects - that save is the one judged,
+        # against whatever the interrupted attempt left on the device
+        lose1 = _LoseOne(w.ch.transport, ctx.choice(12, "lose-at-save"), "master")
+        w.ch.transport = lose1
+        for p in pdos:
+            _, exc = call(pmap(p).save)
+            if exc is not None:
+                if not isinstance(exc, SdoError):
+                    ctx.violation("C09/save-raised/%s@%s" % (type(exc).__name__, site(exc)), "save() with one answer lost raised %r" % (exc,))
+                break
+        w.ch.transport = lose1.inner
+        ctx.drain()
+        if lose1.fired:
+            ctx.fault("answer-lost-during-save")
     save_and_judge(False)
     if ctx.choice(3, "again") == 0:
         # ---- the same node object is changed and saved again (what the device holds now is its 'prior state')
